@@ -2,22 +2,22 @@ SPECIFICATION Spec
 CONSTANTS
   NW = 1
   NBatch = 2
-  RPB = 2
-  NSigs = 2
-  NHours = 2
-  NKeys = 1
-  MaxBuf = 2
-  QCap = 2
+  RPB = 1
+  NSigs = 1
+  NHours = 1
+  NKeys = 2
+  MaxBuf = 3
+  QCap = 1
   NWorkers = 1
   MaxIters = 2
   WalOn = FALSE
   FailKinds = {"error"}
-  MaxDown = 0
+  MaxDown = 1
   MaxRot = 0
   MaxTick = 0
   MaxAged = 0
-  Ops = {"flushall", "close"}
-  CloseAfterWrites = TRUE
+  Ops = {"flushall"}
+  CloseAfterWrites = FALSE
   CloseDrains = TRUE
   Coarse = TRUE
   Emit = TRUE
